@@ -1,8 +1,22 @@
 #!/usr/bin/env python3
-"""Regenerates MANIFEST.json from vlib/manifest_data.py (kept valid at all times)."""
-import json, os, sys
-sys.path.insert(0, os.path.dirname(os.path.abspath(__file__)))
+"""Regenerates MANIFEST.json from the MANIFEST entries of vlib/props/cXX.py (kept valid at all times)."""
+import importlib, json, os, sys
+HERE = os.path.dirname(os.path.abspath(__file__))
+sys.path.insert(0, HERE)
 from vlib import manifest_data as m
+checks, na = [], []
+for i in range(1, 21):
+    pid = "C%02d" % i
+    try:
+        mod = importlib.import_module(f"vlib.props.{pid.lower()}")
+        ent = getattr(mod, "MANIFEST", None)
+    except ModuleNotFoundError:
+        ent = None
+    if ent and getattr(mod, "CLAIMED", True):
+        checks.append(m.check(pid, ent["text"], m.COMMON_NOTE + ent["note"], ent["technique"], ent.get("design_ref", "7/" + pid)))
+    else:
+        na.append({"property_id": pid, "reason": (getattr(mod, "NOT_CLAIMED_REASON", None) if ent is not None or 'mod' in dir() and mod else None) or
+                   "not claimed yet: the model and theorems for this property are still being built (DESIGN.md section 9); the technique applies"})
 doc = {
     "version": 1,
     "setup_cmd": "./check setup",
@@ -14,14 +28,14 @@ doc = {
         "add_only": True,
     },
     "engines": [
-        {"name": "coq-model", "path": "coq/", "serves_properties": [c["property_id"] for c in m.CHECKS],
+        {"name": "coq-model", "path": "coq/", "serves_properties": [c["property_id"] for c in checks],
          "kind_free_text": "Coq 8.16.1 development: Prelude (Python semantics), gen (kernels regenerated from /repo by vlib/kernels.py), Model (hand-written executable model), Proofs, Properties (theorem statements + Print Assumptions)"},
-        {"name": "modelrun", "path": "build/modelrun", "serves_properties": [c["property_id"] for c in m.CHECKS],
-         "kind_free_text": "OCaml extraction (ExtrOcamlBasic only) of Model/Units.v + ocaml/driver.ml; correspondence oracle"},
+        {"name": "modelrun", "path": "build/modelrun_<area>", "serves_properties": [c["property_id"] for c in checks],
+         "kind_free_text": "OCaml extraction (ExtrOcamlBasic only) of Model/Units_<area>.v + ocaml/driver.ml; correspondence oracle"},
     ],
-    "checks": m.CHECKS,
-    "not_applicable": m.NOT_APPLICABLE,
+    "checks": checks,
+    "not_applicable": na,
     "notes": m.NOTES,
 }
-json.dump(doc, open(os.path.join(os.path.dirname(os.path.abspath(__file__)), "MANIFEST.json"), "w"), indent=1)
-print("checks:", len(m.CHECKS), "not_applicable:", len(m.NOT_APPLICABLE))
+json.dump(doc, open(os.path.join(HERE, "MANIFEST.json"), "w"), indent=1)
+print("checks:", [c["property_id"] for c in checks], "not_applicable:", len(na))
